@@ -34,6 +34,15 @@ Fixpoint strs_eqb (a b : list string) : bool :=
 Lemma opaque_pinned : strs_eqb gen_opaque golden_opaque = true.
 Proof. vm_compute. reflexivity. Qed.
 
+(* 4b. the codec methods of the irregular (hand-modelled) types have exactly the source text the models were written
+   against: any edit to one of them voids the hand-written model until it is re-confirmed *)
+Fixpoint pairs_eqb (a b : list (string * string)) : bool :=
+  match a, b with [], [] => true | (x, h) :: ra, (y, k) :: rb => String.eqb x y && String.eqb h k && pairs_eqb ra rb | _, _ => false end.
+Definition opaque_src_changed : list string :=
+  flat_map (fun '(n, h) => if existsb (fun '(m, k) => String.eqb n m && String.eqb h k) golden_opaque_src then [] else [n]) gen_opaque_src.
+Lemma opaque_src_pinned : opaque_src_changed = [] /\ pairs_eqb gen_opaque_src golden_opaque_src = true.
+Proof. vm_compute. split; reflexivity. Qed.
+
 (* 5. every struct field is written by its encoder, except the documented ones *)
 Definition not_transmitted : list (string * string) := [
   ("types.FileContractRevision", "FileContract");  (* written field by field; Payout replaced by a sentinel on decode *)
